@@ -37,8 +37,10 @@ inductive NameChange (s : State) (n : Name) (d : DymName) : Op → DymName → P
       NameChange s n d (.setController d.owner n c) { d with controller := c }
   /-- address records: only the controller, only while unexpired; nothing else changes -/
   | updateResolve (ch : Chain) (e : Bool) (p : Path) (v : Option Addr) (cfgs : List Config) : d.expired s.now = false →
+      ((∃ x, cfgs = upsertConfig d.configs ⟨ch, p, x⟩) ∨ cfgs = removeConfig d.configs ch p) →
       NameChange s n d (.updateResolve d.controller n ch e p v) { d with configs := cfgs }
   | updateDetails (c : ContactArg) (cl : Bool) (cfgs : List Config) (contact : Nat) : d.expired s.now = false →
+      (cfgs = [] ∨ cfgs = d.configs) →
       NameChange s n d (.updateDetails d.controller n c cl) { d with configs := cfgs, contact := contact }
   /-- a bid that reaches the sell price of the owner's open, unexpired sell order -/
   | purchase (a : Acct) (offer : Nat) (so : SellOrder) : AMap.get s.nameSO n = some so → so.expired s.now = false →
@@ -235,7 +237,7 @@ theorem updateResolve_change {a m ch e p v} (h : updateResolveAddress s a m ch e
       rename (getName s n = some _) => hd0
       rw [hd] at hd0; injection hd0 with hd0; subst hd0
       rename (d.controller = a) => ho; subst ho
-      exact ⟨_, if_pos rfl, Or.inr (NameChange.updateResolve ch e p _ _ (by assumption))⟩
+      exact ⟨_, if_pos rfl, Or.inr (NameChange.updateResolve ch e p _ _ (by assumption) (by first | exact Or.inl ⟨_, rfl⟩ | exact Or.inr rfl))⟩
     · exact ⟨d, by simp [hnm]; exact hd, Or.inl rfl⟩
 
 theorem updateDetails_change {a m c cl} (h : updateDetails s a m c cl = .ok s') (hd : getName s n = some d) :
@@ -256,9 +258,9 @@ theorem updateDetails_change {a m c cl} (h : updateDetails s a m c cl = .ok s') 
       rename (d.controller = a) => ho; subst ho
       refine ⟨_, if_pos rfl, Or.inr ?_⟩
       first
-      | exact NameChange.updateDetails _ cl [] _ (by assumption)
-      | exact NameChange.updateDetails _ cl d.configs d.contact (by assumption)
-      | exact NameChange.updateDetails _ cl d.configs _ (by assumption)
+      | exact NameChange.updateDetails _ cl [] _ (by assumption) (Or.inl rfl)
+      | exact NameChange.updateDetails _ cl d.configs d.contact (by assumption) (Or.inr rfl)
+      | exact NameChange.updateDetails _ cl d.configs _ (by assumption) (Or.inr rfl)
     · exact ⟨d, by simp [hnm]; exact hd, Or.inl rfl⟩
 
 end
